@@ -126,6 +126,8 @@ def gen_cases(tier, rng):
                 h.stop()       # a second stop of the same input must be a no-op
             quick = cfg.get("push") and rng.random() < 0.5 and e + 1 < epochs
             was_quick = bool(quick)
+            if e + 1 == epochs and k % 3 == 1:
+                break            # server shutdown while this input is attached (Group.Dispose below)
             if quick:
                 h.stop_quick()   # the next input follows at once; then a tick
             else:
@@ -138,9 +140,11 @@ def gen_cases(tier, rng):
                 h.describe()
             if rng.random() < 0.3:
                 live.append(h.join(rng.choice(kinds)))
-        if cfg.get("push"):
+        if cfg.get("push") and k % 3 != 1:
             h.tick()
-        yield Case(h.line(), cls="%d-epochs%s" % (epochs, "-push" if cfg.get("push") else ""))
+        if k % 3 == 1 or k % 7 == 0:
+            h.dispose()      # with the last input still attached (k % 3 == 1) or after it has ended
+        yield Case(h.line(), cls="%d-epochs%s%s" % (epochs, "-push" if cfg.get("push") else "", "-dispose" if h.ev[-1] == "X" else ""))
     # RTSP subscribers across publish / unpublish cycles (DESCRIBE before, during and after inputs; late RTP packets)
     yield from fanout.gen_rtsp_histories(tier, rng, multi_epoch=True)
 
@@ -171,7 +175,7 @@ def oracle(c, out):
             epoch += 1
             in_epoch = True
             spans.append([pos, len(evs)])
-        elif e[0] in ("O", "Oq") and in_epoch:
+        elif e[0] in ("O", "Oq", "X") and in_epoch:
             in_epoch = False
             spans[-1][1] = pos
         elif e[0] == "P":
@@ -195,6 +199,11 @@ def oracle(c, out):
     for ep in range(nep):
         if recs[ep][:1] != ["F"] or recs[ep][1:] != ["t%d" % i for i in per_epoch[ep]]:
             return (False, "recording of input %d is not header + exactly its messages: %s" % (ep, recs[ep][:16]))
+    # server shutdown: every session the group held is disposed
+    if evs and evs[-1][0] == "X":
+        lv = obs.get("live")
+        if lv != [[]]:
+            return (False, "after Group.Dispose() these sessions are still open: %s" % (lv,))
     # MPEG-TS recording: one file per input, holding exactly the PAT/PMT and TS blobs of that input, in order
     if cfg.get("trec"):
         trecs = obs.get("trec", [])
